@@ -56,8 +56,9 @@ Definition strtod_exact (l:list N) : option (bool * Z * Z) :=
   let '(_, ev, ne) := digs l6 0 0 in
   let ex := if hasE && (0 <? ne) then (if eneg then - ev else ev) else 0 in
   let e10 := ex - nf in
-  (* clamp silly exponents so that powers stay computable; anything beyond is 0 or infinity anyway *)
-  let e10' := Z.max (-400) (Z.min 400 e10) in
+  (* clamp silly exponents so that powers stay computable; anything beyond is 0 or infinity anyway: the mantissa is below
+     10^(ni+nf), so below -400-(ni+nf) the value stays under 10^-400 (rounds to 0), above 400 a non-zero value stays infinite *)
+  let e10' := Z.max (-400 - (ni + nf)) (Z.min 400 e10) in
   Some (neg, if 0 <=? e10' then mant * 10^e10' else mant, if 0 <=? e10' then 1 else 10^(-e10')).
 Definition strtod_bits (l:list N) : Z :=
   match strtod_exact l with None => 0 | Some (neg,n,d) => bits64 neg (nearest64 n d) end.
